@@ -322,6 +322,8 @@ pub fn run_c07(out: &mut Out, tier: &str, seed: u64) {
         pair!(out, rng, 16, 32); pair!(out, rng, 32, 16); pair!(out, rng, 64, 32); pair!(out, rng, 16, 64); pair!(out, rng, 32, 32); pair!(out, rng, 64, 64);
     }
     crate::objapi::hashes(out, &mut rng);
+    crate::objapi::mac_lengths(out, &mut rng);
+    crate::objapi::long_inputs(out, &mut rng, false);
 }
 
 /// all 2-way splits of every length 0..=l2 and all 3-way splits of every length 0..=l3
@@ -460,4 +462,6 @@ pub fn run_c08(out: &mut Out, tier: &str, seed: u64) {
         out.len_bucket("chunked-message", n);
     }
     out.notes.insert("partitions_checked_on_implementation".into(), json!(count));
+    crate::objapi::generichash_vec_keys(out, &mut rng);
+    crate::objapi::long_inputs(out, &mut rng, false);
 }
